@@ -14,6 +14,33 @@ class Divergence(Exception):
     """Replaying a verified prefix produced a different observation."""
 
 
+class Hang(BaseException):
+    """One operation did not return within the watchdog time."""
+
+
+WATCHDOG = 30   # seconds of wall time for one operation of the library
+
+
+def _alarm(signum, frame):
+    raise Hang()
+
+
+def guarded(fn, *args):
+    """Run fn(*args); a call that does not come back is reported, not waited
+    for (sequential operations take milliseconds)."""
+    import signal
+    import threading
+    if threading.current_thread() is not threading.main_thread():
+        return fn(*args)
+    old = signal.signal(signal.SIGALRM, _alarm)
+    signal.setitimer(signal.ITIMER_REAL, WATCHDOG)
+    try:
+        return fn(*args)
+    finally:
+        signal.setitimer(signal.ITIMER_REAL, 0)
+        signal.signal(signal.SIGALRM, old)
+
+
 def bfs(make_world, alphabet, depth, allow=None, max_transitions=None,
         sample_every=997, label=None, time_cap=None, first=None):
     """Explore all histories over ``alphabet`` up to ``depth``.
@@ -67,7 +94,12 @@ def bfs(make_world, alphabet, depth, allow=None, max_transitions=None,
                         raise Divergence('history %r replayed differently:\n'
                                          '%r\n%r' % (hist, prefix_obs,
                                                      obs_of[repr(hist)][1]))
-                    o, problems = w.apply(op)
+                    try:
+                        o, problems = guarded(w.apply, op)
+                    except Hang:
+                        o, problems = None, [(
+                            'operation-hangs', '%r did not return within %ds'
+                            % (op, WATCHDOG))]
                     part['transitions'] += 1
                     part['executions'] += 1
                     h2 = hist + (op,)
